@@ -12,6 +12,7 @@ mod cases_bitvec;
 mod cases_bfv;
 mod cases_rank;
 mod cases_lenders;
+mod cases_ef;
 
 pub struct Rng(pub u64);
 impl Rng {
@@ -79,6 +80,7 @@ fn main() {
 fn dispatch(case: &str, ctx: &mut Ctx, one: Option<&str>, rng: &mut Rng, budget: usize) {
     match case {
         "bitvec_iter_ones" | "bitvec_iter_zeros" | "bitvec_ops" | "bitvec_stale" => cases_bitvec::run(case, ctx, one, rng, budget),
+        "ef_seq" | "ef_dict" | "ef_builder" => cases_ef::run(case, ctx, one, rng, budget),
         "lenders" => cases_lenders::run(case, ctx, one, rng, budget),
         "rank9" | "rank_all" => cases_rank::run(case, ctx, one, rng, budget),
         "bfv_ops" | "bfv_copy" | "bfv_unaligned" | "bfv_apply" => cases_bfv::run(case, ctx, one, rng, budget),
